@@ -170,7 +170,15 @@ pub fn scenario_body(sc: Scenario, obs: SharedObs) {
         let ok = probe(&srv.addr, 99);
         obs.lock().unwrap().probe_ok = Some(ok);
     }
-    // orderly end: stop the application, close the clients, drop the server
+    // orderly end: the clients finish sending (an application thread may still be
+    // skipping a body the client has not sent in full), the application stops, the
+    // server is dropped
+    for ci in 0..clients.len() {
+        if let Some(c) = clients[ci].as_mut() {
+            c.close_write();
+        }
+    }
+    ctl::settle();
     srv.server.unblock();
     if sc.app.deferred {
         // the first unblock flushed the stash if AppGo was never issued
@@ -179,11 +187,6 @@ pub fn scenario_body(sc: Scenario, obs: SharedObs) {
     }
     let _ = app.join();
     obs.lock().unwrap().live_threads_before_drop = ctl::live_threads();
-    for ci in 0..clients.len() {
-        if let Some(c) = clients[ci].as_mut() {
-            c.close_write();
-        }
-    }
     ctl::settle();
     for ci in 0..clients.len() {
         if let Some(c) = clients[ci].as_ref() {
